@@ -1,7 +1,9 @@
 (* C06 -- proofs about Model/CoreC06.v (see that file for the definitions). *)
 From Coq Require Import List Arith Bool PeanoNat Lia.
 Import ListNotations.
-Require Import TL.Model.Core TL.Model.CoreC06 TL.Model.CoreC06Toy.
+Require Import TL.Model.Core.
+Require Import TL.Model.CoreC06.
+Require Import TL.Model.CoreC06Toy.
 
 (* ------------------------------------------------------------------ generic list / monad lemmas *)
 Lemma mapM_pres {A B} (Q : A -> Prop) (P : B -> Prop) (f : A -> res B) :
